@@ -441,6 +441,10 @@ class Representation(ObjectWithFields):
             dur += duration
             mod_segment += 1
             if mod_segment > self.num_media_segments:
+                if self._timing.mode != 'live':
+                    # a static presentation does not loop: stop after the
+                    # last segment of a track that is shorter than the reference
+                    break
                 mod_segment = 1
         output_s_node(s_node)
         return rv
